@@ -12,11 +12,14 @@
                                  of the multiset of entries, the diagonal, and symmetry (und)
    Streams: ints = recorded rng.randint(n**4) results, perms = recorded rng.permutation(m) results,
    ords = the np.argsort results (float-decided: oracle). All theorems hold for ALL such lists; the model
-   itself rejects (None) an `ords`/`perms` entry that is not a permutation of the right range, so
-   "returns Some" = "every oracle order and every permutation draw is a permutation". *)
+   itself ends in DealError on an `ords`/`perms` entry that is not a permutation of the right range.
+   Further oracles of the null model: isint (W has an integer dtype), close (result of np.allclose(W, W.T), only
+   consulted for W that is not exactly symmetric), pf (float result of np.round(1/wei_freq), admitted within 1 of
+   the exact quotient).  A call ends as Returned r | ParamError | NoQuad (RecursionError of the node picker) |
+   BadPeriod | CastError (UFuncTypeError on integer W) | DealError; C06_null_model_total says when it is Returned. *)
 From Coq Require Import ZArith QArith List Arith Bool.
 From BCT Require Import Base.Mat Base.ListX Model.Signed Model.NullModel Proofs.Signed Proofs.NullModelTop
-  Proofs.NullModelCorr.
+  Proofs.NullModelCorr Proofs.SignedFull Proofs.NullModelCorrRange Proofs.NullModelTotal.
 Import ListNotations.
 Open Scope Z_scope.
 
@@ -68,13 +71,21 @@ Proof. exact randmio_signed_inv. Qed.
    the output has the input's signed degrees (in and out), the input's multiset of entries, an empty diagonal,
    is symmetric (und), carries the rewired sign pattern, and the returned correlations are those of the strength
    sequences of the (diagonal-cleared) input and the output. *)
-Theorem C06_deal_multiset_corr_def : forall und n W bin_swaps wei_freq ints ords perms r, (0 < n)%nat ->
-  null_model und n W bin_swaps wei_freq ints ords perms = Some r -> null_model_property und n W r.
+Theorem C06_deal_multiset_corr_def : forall und n W isint close bin_swaps wei_freq pf ints ords perms r,
+  (0 < n)%nat -> pre und n W ->
+  null_model und n W isint close bin_swaps wei_freq pf ints ords perms = Returned r -> null_model_property und n W r.
 Proof. exact null_model_meets_property. Qed.
 
+(* the same without the symmetry hypothesis when the np.allclose oracle is not used (close = false): a run that
+   returns has then passed the model's own exact symmetry test *)
+Theorem C06_null_model_checked_symmetry : forall und n W isint bin_swaps wei_freq pf ints ords perms r, (0 < n)%nat ->
+  null_model und n W isint false bin_swaps wei_freq pf ints ords perms = Returned r -> null_model_property und n W r.
+Proof. exact null_model_checked_symmetry. Qed.
+
 (* the general form, including the rewired matrix and every intermediate state of the inner rewiring *)
-Theorem C06_null_model_inv_general : forall und n W bin_swaps wei_freq ints ords perms r, (0 < n)%nat ->
-  null_model und n W bin_swaps wei_freq ints ords perms = Some r ->
+Theorem C06_null_model_inv_general : forall und n W isint close bin_swaps wei_freq pf ints ords perms r,
+  (0 < n)%nat -> pre und n W ->
+  null_model und n W isint close bin_swaps wei_freq pf ints ords perms = Returned r ->
   sinv und n (clear_diag W) (nm_W0 r) /\
   (forall i, (i < n)%nat -> nm_W0 r i i = 0) /\
   (forall i j, (i < n)%nat -> (j < n)%nat -> Z.sgn (nm_W0 r i j) = Z.sgn (nm_Wr r i j)) /\
@@ -83,15 +94,16 @@ Theorem C06_null_model_inv_general : forall und n W bin_swaps wei_freq ints ords
   nm_corr r = corr4 n (clear_diag W) (nm_W0 r).
 Proof. exact null_model_inv. Qed.
 
-Theorem C06_null_model_rewiring_inv : forall und n W bin_swaps wei_freq ints ords perms r, (0 < n)%nat ->
-  null_model und n W bin_swaps wei_freq ints ords perms = Some r ->
+Theorem C06_null_model_rewiring_inv : forall und n W isint close bin_swaps wei_freq pf ints ords perms r,
+  (0 < n)%nat -> pre und n W ->
+  null_model und n W isint close bin_swaps wei_freq pf ints ords perms = Returned r ->
   let ok := fun M => same_signed_degrees n (clear_diag W) M /\ same_entries n (clear_diag W) M /\
                      same_diag n (clear_diag W) M /\ (und = true -> symn n M) in
   ok (nm_Wr r) /\ Forall (fun e => ok (snd e)) (nm_trace r).
 Proof. exact null_model_rewiring_inv. Qed.
 
-Theorem C06_null_model_und_rejects : forall n W bin_swaps wei_freq ints ords perms,
-  symb n W = false -> null_model true n W bin_swaps wei_freq ints ords perms = None.
+Theorem C06_null_model_und_rejects : forall n W isint bin_swaps wei_freq pf ints ords perms,
+  symb n W = false -> null_model true n W isint false bin_swaps wei_freq pf ints ords perms = ParamError.
 Proof. exact null_model_und_rejects. Qed.
 
 (* what a returned correlation triple (cxy, cxx, cyy) means: twice the (co)variance sums over all pairs;
@@ -106,6 +118,109 @@ Theorem C06_corr3_cov : forall x y n, let '(cxy, _, cyy) := corr3 x y n in
   2 * cyy = sum2 (fun i j => (y i - y j) * (y i - y j)) n.
 Proof. exact corr3_cov. Qed.
 
+(* ---------- the diagonal clause of randmio_*_signed ----------
+   What holds: the diagonal is never written; an empty diagonal stays empty (final matrix and every intermediate state).
+   What the property text says ("the diagonal is empty", for every input) is FALSE of the code: every self-connection
+   of the input is kept. *)
+Theorem C06_signed_run_diag_empty : forall und n R itr s Rf sf tr, (0 < n)%nat -> pre und n R ->
+  (forall i, (i < n)%nat -> R i i = 0) ->
+  randmio_signed und n R itr s = (Rf, sf, tr) ->
+  (forall i, (i < n)%nat -> Rf i i = 0) /\
+  Forall (fun e => forall i, (i < n)%nat -> snd e i i = 0) tr.
+Proof. exact signed_run_diag_empty. Qed.
+
+Theorem C06_signed_run_selfloop_kept : forall und n R itr s Rf sf tr i, (0 < n)%nat -> pre und n R ->
+  randmio_signed und n R itr s = (Rf, sf, tr) -> (i < n)%nat -> R i i <> 0 -> Rf i i <> 0.
+Proof. exact signed_run_selfloop_kept. Qed.
+
+(* full statement of the clause, refuted (witness: a symmetric 5-node network with R[0][0] = 3, R[2][2] = -1) *)
+Theorem C06_randmio_diag_refuted :
+  ~ (forall und n R itr s Rf sf tr, (0 < n)%nat -> pre und n R ->
+       randmio_signed und n R itr s = (Rf, sf, tr) -> forall i, (i < n)%nat -> Rf i i = 0).
+Proof. exact diag_clause_refuted. Qed.
+
+(* ---------- calls that do not return ----------
+   randmio_signed_ret = the routine as the caller sees it (None: pick_four_unique_nodes_quickly never returns,
+   RecursionError).  With fewer than four nodes and at least one iteration that is certain, for every stream. *)
+Theorem C06_randmio_small_n_never_returns : forall und n R itr s,
+  (0 < n)%nat -> (n < 4)%nat -> (0 < n_iter und n itr)%nat -> randmio_signed_ret und n R itr s = None.
+Proof. exact small_n_never_returns. Qed.
+
+Theorem C06_randmio_ret_sound : forall und n R itr s x,
+  randmio_signed_ret und n R itr s = Some x -> randmio_signed und n R itr s = x.
+Proof. exact randmio_signed_ret_Some. Qed.
+
+(* ---------- totality of the null models ----------
+   oracles_ok_sign per m ords perms = Some (ords', perms'): for wei_freq = 0 (per = 0) one argsort order that is a
+   permutation of 0..m-1; otherwise, for m, m - per, m - 2 per, ... > 0, one argsort order and one rng.permutation
+   result, both permutations of 0..m-1; ords', perms' = what is left.  For symmetric (und) input, an admissible period,
+   no integer-dtype crash, a rewiring that gets its nodes, and such oracles for the positive and then the negative
+   weights, the call RETURNS and consumes exactly those oracles. *)
+Theorem C06_null_model_total : forall und n W isint close bin_swaps wei_freq pf ints ords perms per o1 p1 o2 p2,
+  let Wc := tab 0 n n (clear_diag W) in
+  let rew := (length (supp false n 1 Wc) <? n * (n - 1))%nat in
+  (0 < n)%nat -> pre und n W ->
+  period_or wei_freq pf = Some per ->
+  (isint && negb (Nat.eqb per 0) && has_weight und n Wc)%bool = false ->
+  (rew = true -> runs_out und n (n_iter und n bin_swaps) Wc ints = false) ->
+  oracles_ok_sign per (length (supp und n 1 Wc)) ords perms = Some (o1, p1) ->
+  oracles_ok_sign per (length (supp und n (-1) Wc)) o1 p1 = Some (o2, p2) ->
+  exists r, null_model und n W isint close bin_swaps wei_freq pf ints ords perms = Returned r /\
+            snd (nm_unread r) = (length o2, length p2).
+Proof. exact null_model_total. Qed.
+
+(* the quantifier "wei_freq in (0,1] and 0": every such value has a period (>= 1, resp. the code 0), whichever
+   admissible rounding pf the float computation produced; the exact half-to-even rounding is admissible *)
+Theorem C06_period_domain : forall wf pf, (0 < wf)%Q -> (wf <= 1)%Q -> near wf pf = true ->
+  exists p, period_or wf pf = Some p /\ (1 <= p)%nat /\ Z.of_nat p = pf.
+Proof. exact period_domain. Qed.
+
+Theorem C06_period_exact : forall wf,
+  near wf (round_half_even (1 / wf)) = true /\ period_or wf (round_half_even (1 / wf)) = period_of wf /\
+  period_or 0 (round_half_even (1 / wf)) = Some 0%nat.
+Proof. intros wf. split; [apply near_round|split; [apply period_or_exact|reflexivity]]. Qed.
+
+(* BCTParamError exactly for undirected, not exactly symmetric, and np.allclose says no *)
+Theorem C06_null_model_param_error_iff : forall und n W isint close bin_swaps wei_freq pf ints ords perms,
+  null_model und n W isint close bin_swaps wei_freq pf ints ords perms = ParamError <->
+  (und = true /\ symb n W = false /\ close = false).
+Proof. exact null_model_param_error_iff. Qed.
+
+(* ---------- the correlations are Pearson coefficients: r^2 <= 1 (Cauchy-Schwarz), r = 1 for equal sequences ---------- *)
+Theorem C06_corr_cauchy_schwarz : forall x y n, let '(cxy, cxx, cyy) := corr3 x y n in
+  cxy * cxy <= cxx * cyy /\ 0 <= cxx /\ 0 <= cyy.
+Proof. exact corr3_cauchy_schwarz. Qed.
+
+Theorem C06_corr_r_squared_range : forall x y n, let c := corr3 x y n in
+  let '(cxy, cxx, cyy) := c in 0 < cxx * cyy -> (0 <= r_squared c /\ r_squared c <= 1)%Q.
+Proof. exact corr3_r_squared_range. Qed.
+
+Theorem C06_corr_equal_seq : forall x y n, (forall i, (i < n)%nat -> y i = x i) ->
+  let '(cxy, cxx, cyy) := corr3 x y n in cxy = cxx /\ cyy = cxx.
+Proof. exact corr3_equal_seq. Qed.
+
+(* the four numbers a null model returns: each triple satisfies cxy^2 <= cxx*cyy, cxx >= 0, cyy >= 0 *)
+Theorem C06_null_model_corr_range : forall und n W isint close bin_swaps wei_freq pf ints ords perms r,
+  (0 < n)%nat -> pre und n W ->
+  null_model und n W isint close bin_swaps wei_freq pf ints ords perms = Returned r ->
+  length (nm_corr r) = 4%nat /\ Forall triple_ok (nm_corr r).
+Proof. exact null_model_corr_range. Qed.
+
+(* a strength sequence that the output reproduces exactly has coefficient 1: its triple is (c, c, c) *)
+Theorem C06_null_model_corr_one : forall und n W isint close bin_swaps wei_freq pf ints ords perms r,
+  (0 < n)%nat -> pre und n W ->
+  null_model und n W isint close bin_swaps wei_freq pf ints ords perms = Returned r ->
+  let Wc := clear_diag W in
+  ((forall j, (j < n)%nat -> str_in ppart (nm_W0 r) n j = str_in ppart Wc n j) ->
+     exists c, nth 0 (nm_corr r) (0, 0, 0) = (c, c, c)) /\
+  ((forall i, (i < n)%nat -> str_out ppart (nm_W0 r) n i = str_out ppart Wc n i) ->
+     exists c, nth 1 (nm_corr r) (0, 0, 0) = (c, c, c)) /\
+  ((forall j, (j < n)%nat -> str_in npart (nm_W0 r) n j = str_in npart Wc n j) ->
+     exists c, nth 2 (nm_corr r) (0, 0, 0) = (c, c, c)) /\
+  ((forall i, (i < n)%nat -> str_out npart (nm_W0 r) n i = str_out npart Wc n i) ->
+     exists c, nth 3 (nm_corr r) (0, 0, 0) = (c, c, c)).
+Proof. exact null_model_corr_one. Qed.
+
 (* ---------- non-vacuity ---------- *)
 (* 430 = nodes 0,1,2,3; 6 = collision, retried; 38 = nodes 3,2,1,0: two accepted swaps, then the stream ends *)
 Example C06_run_nonvacuous :
@@ -114,22 +229,57 @@ Example C06_run_nonvacuous :
                    /\ (2 <= length tr)%nat.
 Proof. eexists. eexists. eexists. split; [vm_compute; reflexivity|]. vm_compute. repeat constructor. Qed.
 
-(* directed null model, wei_freq = 1/2 (period 2): two rewirings, then 4 + 3 dealing periods with identity
+(* directed null model, wei_freq = 1/2 (period 2): two rewirings (586 = nodes 1,2,3,4 fails the sign test in
+   each of the 18 x 6 remaining attempts), then 4 + 3 dealing periods with identity
    oracle orders and reversed permutations; the dealt matrix differs from the input and from the rewired one *)
 Example C06_null_model_dir_nonvacuous :
   let W := of_rows 0 [[0; 2; -1; 0; 3]; [1; 0; 0; -2; 0]; [-3; 0; 0; 1; 2]; [0; -1; 4; 0; 0]; [2; 0; -2; 1; 0]]%list in
   let lens := [8; 6; 4; 2; 5; 3; 1]%nat in
-  exists r, null_model false 5 W 1 (1 # 2) [430; 6; 38]%list (map (seq 0) lens) (map (fun m => rev (seq 0 m)) lens) = Some r
+  exists r, null_model false 5 W false false 1 (1 # 2) 2 ([430; 6; 38] ++ repeat 586 108)%list (map (seq 0) lens) (map (fun m => rev (seq 0 m)) lens) = Returned r
             /\ zrows 5 (nm_W0 r) = [[0; 0; -1; 1; 1]; [0; 0; 1; -1; 0]; [-2; 2; 0; 0; 2]; [2; -2; 0; 0; 0]; [3; 0; -3; 4; 0]]%list
-            /\ length (nm_trace r) = 2%nat.
-Proof. eexists. split; [vm_compute; reflexivity|]. split; vm_compute; reflexivity. Qed.
+            /\ length (nm_trace r) = 2%nat /\ nm_unread r = (0, (0, 0))%nat.
+Proof. eexists. split; [vm_compute; reflexivity|]. split; [|split]; vm_compute; reflexivity. Qed.
 
 (* undirected null model, wei_freq = 0 (one argsort per sign, no permutation draw), bin_swaps = 0 *)
 Example C06_null_model_und_nonvacuous :
   let W := of_rows 0 [[0; 2; -1; 0; 3]; [2; 0; 0; -2; 1]; [-1; 0; 0; 1; -2]; [0; -2; 1; 0; 0]; [3; 1; -2; 0; 0]]%list in
-  exists r, null_model true 5 W 0 0 []%list [[2; 0; 3; 1]; [1; 2; 0]]%list%nat []%list = Some r
+  exists r, null_model true 5 W true false 0 0 0 []%list [[2; 0; 3; 1]; [1; 2; 0]]%list%nat []%list = Returned r
             /\ zrows 5 (nm_W0 r) = [[0; 1; -2; 0; 3]; [1; 0; 0; -1; 1]; [-2; 0; 0; 2; -2]; [0; -1; 2; 0; 0]; [3; 1; -2; 0; 0]]%list.
 Proof. eexists. split; [vm_compute; reflexivity|]. vm_compute. reflexivity. Qed.
+
+(* the hypotheses of C06_null_model_total are met by the run of C06_null_model_dir_nonvacuous *)
+Example C06_total_nonvacuous :
+  let W := of_rows 0 [[0; 2; -1; 0; 3]; [1; 0; 0; -2; 0]; [-3; 0; 0; 1; 2]; [0; -1; 4; 0; 0]; [2; 0; -2; 1; 0]]%list in
+  let Wc := tab 0 5 5 (clear_diag W) in
+  let lens := [8; 6; 4; 2; 5; 3; 1]%nat in
+  let ords := map (seq 0) lens in let perms := map (fun m => rev (seq 0 m)) lens in
+  period_or (1 # 2) 2 = Some 2%nat /\
+  runs_out false 5 (n_iter false 5 1) Wc ([430; 6; 38] ++ repeat 586 108)%list = false /\
+  oracles_ok_sign 2 (length (supp false 5 1 Wc)) ords perms = Some (skipn 4 ords, skipn 4 perms) /\
+  oracles_ok_sign 2 (length (supp false 5 (-1) Wc)) (skipn 4 ords) (skipn 4 perms) = Some ([], [])%list.
+Proof. split; [|split; [|split]]; vm_compute; reflexivity. Qed.
+
+(* a 3-node network with one positive and one negative connection: one iteration requested, the call does not return *)
+Example C06_small_n_nonvacuous :
+  (0 < n_iter true 3 1)%nat /\
+  run_randmio_signed true [[0; 1; -1]; [1; 0; 0]; [-1; 0; 0]]%list 1 [5; 7; 11; 80]%list = None.
+Proof. split; vm_compute; [repeat constructor|reflexivity]. Qed.
+
+(* why the undirected theorems assume exact symmetry: an input that np.allclose accepts (close = true) but that is not
+   symmetric (2049 vs 2048, in units of 1/128) loses the weight 2048 of its lower triangle *)
+Example C06_null_model_und_needs_symmetry :
+  let W := of_rows 0 [[0; 2049; -1024; 0]; [2048; 0; 0; -2048]; [-1024; 0; 0; 1024]; [0; -2048; 1024; 0]]%list in
+  symb 4 W = false /\
+  exists r, null_model true 4 W false true 0 0 0 []%list [[0; 1]; [0; 1]]%list%nat []%list = Returned r
+            /\ cnt 2048 W 4 = 1 /\ cnt 2048 (nm_W0 r) 4 = 0.
+Proof. split; [vm_compute; reflexivity|]. eexists. split; [vm_compute; reflexivity|]. split; vm_compute; reflexivity. Qed.
+
+(* correlation triples: a strict instance of Cauchy-Schwarz and an instance of r = 1 *)
+Example C06_corr_nonvacuous :
+  corr3 (fun i => Z.of_nat i) (fun i => Z.of_nat (i * i)) 4 = (60, 20, 196) /\ 60 * 60 < 20 * 196 /\
+  corr3 (fun i => Z.of_nat i) (fun i => Z.of_nat i) 4 = (20, 20, 20).
+Proof. split; [|split]; vm_compute; reflexivity. Qed.
+
 
 Print Assumptions C06_pick4_distinct.
 Print Assumptions C06_pick4_digits.
@@ -144,3 +294,18 @@ Print Assumptions C06_null_model_rewiring_inv.
 Print Assumptions C06_null_model_und_rejects.
 Print Assumptions C06_corr3_var.
 Print Assumptions C06_corr3_cov.
+Print Assumptions C06_signed_run_diag_empty.
+Print Assumptions C06_signed_run_selfloop_kept.
+Print Assumptions C06_randmio_diag_refuted.
+Print Assumptions C06_randmio_small_n_never_returns.
+Print Assumptions C06_randmio_ret_sound.
+Print Assumptions C06_null_model_total.
+Print Assumptions C06_period_domain.
+Print Assumptions C06_period_exact.
+Print Assumptions C06_null_model_param_error_iff.
+Print Assumptions C06_corr_cauchy_schwarz.
+Print Assumptions C06_corr_r_squared_range.
+Print Assumptions C06_corr_equal_seq.
+Print Assumptions C06_null_model_corr_range.
+Print Assumptions C06_null_model_corr_one.
+Print Assumptions C06_null_model_checked_symmetry.
